@@ -171,6 +171,41 @@ def main():
             die(f"unknown prefix kind in enum: {o}")
     w("")
     w("/-- kind tags accepted by each prefix-kind query (from the `matches!` arms) -/")
+    # A query whose arms cannot be read any more (rewritten without `matches!`, say through `is_verbatim()`) keeps its
+    # last good table — the model goes on being compared with the code — and is named in `kindSetsStale`, which
+    # `C02.kind_sets_read` requires to be empty: only C02, whose theorems are stated over these arms, is then
+    # reported as no longer shown; the constant tables above stay fresh for C04 / C17.
+    stale = []
+    last_good = {}
+    try:
+        for mm in re.finditer(r"^def (\w+) : List Nat := \[([0-9, ]*)\]", open(OUT).read(), re.M):
+            last_good[mm.group(1)] = [int(x) for x in mm.group(2).replace(" ", "").split(",") if x]
+    except OSError:
+        pass
+
+    class Unreadable(Exception):
+        pass
+
+    def die_soft(msg):
+        raise Unreadable(msg)
+
+    def kind_def(name, src, fn, rel):
+        global die
+        hard = die
+        die = die_soft
+        try:
+            vals = kinds_in(fn_body(src, fn, rel), rel, fn)
+        except Unreadable as e:
+            if name not in last_good:
+                die = hard
+                die(str(e))
+            sys.stderr.write("gen/constants.py: " + str(e) + " (keeping the last good table)\n")
+            stale.append(name)
+            vals = last_good[name]
+        finally:
+            die = hard
+        w(f"def {name} : List Nat := {nat_list(vals)}")
+
     for fn, nm in (("has_any_verbatim_prefix", "anyVerbatimTags"),
                    ("has_verbatim_prefix", "verbatimTags"),
                    ("has_verbatim_unc_prefix", "verbatimUNCTags"),
@@ -178,10 +213,13 @@ def main():
                    ("has_device_ns_prefix", "deviceNSTags"),
                    ("has_unc_prefix", "uncTags"),
                    ("has_disk_prefix", "diskTags")):
-        w(f"def {nm} : List Nat := {nat_list(kinds_in(fn_body(wcomp, fn, 'windows/non_utf8/components.rs'), 'components.rs', fn))}")
-        w(f"def {nm}Utf8 : List Nat := {nat_list(kinds_in(fn_body(wcomp8, fn, 'windows/utf8/components.rs'), 'utf8 components.rs', fn))}")
-    w(f"def isVerbatimTags : List Nat := {nat_list(kinds_in(fn_body(wpre, 'is_verbatim', 'prefix.rs'), 'prefix.rs', 'is_verbatim'))}")
-    w(f"def isVerbatimTagsUtf8 : List Nat := {nat_list(kinds_in(fn_body(wpre8, 'is_verbatim', 'utf8 prefix.rs'), 'utf8 prefix.rs', 'is_verbatim'))}")
+        kind_def(nm, wcomp, fn, "components.rs")
+        kind_def(nm + "Utf8", wcomp8, fn, "utf8 components.rs")
+    kind_def("isVerbatimTags", wpre, "is_verbatim", "prefix.rs")
+    kind_def("isVerbatimTagsUtf8", wpre8, "is_verbatim", "utf8 prefix.rs")
+    w("")
+    w("/-- the kind tables above whose `matches!` arms could not be read from the source this time (last good value kept) -/")
+    w("def kindSetsStale : List String := [" + ", ".join('"%s"' % x for x in stale) + "]")
     w("")
     w("end TP.Generated")
     text = "\n".join(out) + "\n"
@@ -194,7 +232,7 @@ def main():
     if old != text:
         with open(OUT, "w") as f:
             f.write(text)
-    return 0
+    return 3 if stale else 0
 
 if __name__ == "__main__":
     sys.exit(main())
